@@ -128,6 +128,14 @@ class GhostProxy:
         self.interp = interp
 
 
+class SymTupleOfSet(SV):
+    """tuple(<symbolic set>): an unordered view, accepted by str.startswith"""
+    __slots__ = ('setv',)
+
+    def __init__(self, setv):
+        self.setv = setv
+
+
 class SymEnumerate(SV):
     __slots__ = ('seq', 'start')
 
